@@ -122,14 +122,18 @@ impl<'a> Ctx<'a> {
             18 => {
                 // dynamic call through a function-valued local or an inline function value
                 let fv = self.fn_vars();
-                let f = if !fv.is_empty() && self.rng.chance(2, 3) {
-                    read(self.rng.pick(&fv))
+                let (f, arity) = if !fv.is_empty() && self.rng.chance(2, 3) {
+                    let name = self.rng.pick(&fv).clone();
+                    let arity = name[1..].split('_').next().and_then(|a| a.parse::<usize>().ok()).unwrap_or(0);
+                    (read(&name), arity)
                 } else if !self.callable.is_empty() {
-                    c(CardBody::Function(self.rng.pick(&self.callable).call_name.clone()))
+                    let sig = self.rng.pick(&self.callable).clone();
+                    (c(CardBody::Function(sig.call_name.clone())), sig.arity)
                 } else {
                     return self.atom();
                 };
-                let n = self.rng.range(0, 2) as usize;
+                // mostly the declared number of arguments; a wrong count one time in eight
+                let n = if self.rng.chance(7, 8) { arity } else { self.rng.range(0, 2) as usize };
                 let args: Vec<Card> = (0..n).map(|_| self.expr(d.min(1))).collect();
                 Card::dynamic_call(f, args)
             }
@@ -346,7 +350,14 @@ impl<'a> Ctx<'a> {
                     c(CardBody::Function(self.rng.pick(&self.callable).call_name.clone()))
                 };
                 if new_locals {
-                    let n = self.fresh_name("f");
+                    // the arity is part of the name (`f<arity>_<n>`), so that dynamic calls can
+                    // supply the right number of arguments most of the time
+                    let arity = match &v.body {
+                        CardBody::Closure(f) => f.arguments.len(),
+                        CardBody::Function(name) => self.callable.iter().find(|s| &s.call_name == name).map(|s| s.arity).unwrap_or(0),
+                        _ => 0,
+                    };
+                    let n = self.fresh_name(&format!("f{arity}_"));
                     self.scopes.last_mut().unwrap().push(n.clone());
                     Card::set_var(n, v)
                 } else {
